@@ -213,28 +213,19 @@ def model_check(report, tier):
 
 def run(report, tier, seed):
     import random
+    from check import standard_run
     model_check(report, tier)
-    hashseeds = [0, 1, 2, 3] if tier == "quick" else list(range(32))
-    events = run_generators("C02", tier, seed, 16, hashseeds)
     rng0 = random.Random(seed + 17)
-    events += schedule_events(rng0, tier)
-    events += tlc_schedules(report, rng0, tier)
-    report.evaluations += len(events)
-    for e in events:
-        report.count(e.get("feat", "plain"))
-    rng = random.Random(seed)
-    st = selftests(events, rng)
-    judge(report, MODULE, events + st)
-    for e in events[:3]:
-        report.sample({k: e[k] for k in ("op", "sr", "G", "s", "res", "site") if k in e})
-    report.extra["nontrivial_disjoint"] = False
-    report.rule = ("random grammars per semiring/shape (Sat3/Sat2/Bool: any symbol anywhere incl. nullary, unary cycles, "
-                   "duplicates; Rat/MaxTimes: same-span-acyclic), all strings up to L over V, every parser; a case is "
-                   "non-trivial when its grammar has the named structural feature")
+    extra = schedule_events(rng0, tier) + tlc_schedules(report, rng0, tier)
+    standard_run(report, "C02", MODULE, tier, seed, selftests, extra_events=extra,
+                 trivial=("plain", "default-schedule"),
+                 rule=("random grammars per semiring/shape (Sat3/Sat2/Bool: any symbol anywhere incl. nullary rules, unary "
+                       "cycles, duplicates; Rat/MaxTimes: same-span-acyclic), all strings up to L over V, every parser; "
+                       "tie-prone unary-chain grammars under every agenda tie-break; a case is non-trivial when its grammar "
+                       "has a named structural feature (nullary, unary cycle, duplicate rule, ...) or the schedule is not "
+                       "the default one; distinct = distinct (call, arguments)"))
 
 
 def replay(report, rp):
-    e = rp["replay"]["event"]
-    new = gops.event(e["call"]["fn"], e["call"]["args"], site=e.get("site"))
-    judge(report, rp["replay"]["module"], [new])
-    return report.finish()
+    from check import generic_replay
+    return generic_replay(report, rp, gops.event)
